@@ -171,6 +171,13 @@ func mkValue(v Val, manyKeys bool) any {
 		switch {
 		case v.Ptr && v.B:
 			a = []any{string(v.Str), v.Flt, nil}
+		case v.Ptr && v.NilSlice && v.NilMap:
+			// nil containers held in interfaces: the untyped fast paths consult the nil-as-null options themselves
+			a = []any{[]any(nil), map[string]any(nil), []any{}, map[string]any{}} // a slice: member order of a multi-entry map is unspecified
+		case v.Ptr && v.NilSlice:
+			a = []any(nil)
+		case v.Ptr && v.NilMap:
+			a = map[string]any(nil)
 		case v.Ptr:
 			a = map[string]any{"k": string(v.Str)}
 		case v.B:
